@@ -57,7 +57,18 @@ func SetDebugLogger(logger *log.Logger) {
 	dlog = logger
 }
 
+// RegisterCustomFunctions adds custom functions to the function table.  It
+// may be called while expressions are being compiled on other goroutines:
+// the table is guarded by the lock that LookupXpathFunction takes.
 func RegisterCustomFunctions(customFunctionInfoTbl []CustomFunctionInfo) {
+	mu.Lock()
+	defer mu.Unlock()
+	registerCustomFunctions(customFunctionInfoTbl)
+}
+
+// registerCustomFunctions: as RegisterCustomFunctions, for callers that
+// hold the lock.
+func registerCustomFunctions(customFunctionInfoTbl []CustomFunctionInfo) {
 
 	pluginsLoaded = true
 
